@@ -16,7 +16,7 @@ Item(cls, what, e, files) ==
    expected |-> IF RefError(files, e.root) THEN [k |-> "err"]
                 ELSE [k |-> "ok", defs |-> SetToSeq(RefResult(files, e.root))]]
 
-OutDefs(e) == [i \in DOMAIN e.out.defs |-> <<e.out.defs[i].file, e.out.defs[i].name>>]
+OutDefs(e) == [i \in DOMAIN e.out.defs |-> <<e.out.defs[i].file, e.out.defs[i].kind, e.out.defs[i].name>>]
 
 TResolve ==
   /\ IsEvent("ResolveImports")
